@@ -121,7 +121,7 @@ def small_cases(rng, n, shapes=("strong",), nq=8):
     out = []
     # a fifth of the small cases are 'defaults and exceptions' bases and TLC-found distinguishing inputs (several ties per layer)
     special = [c for c in (infer.gen_case_defaults(rng, nq) for _ in range(n // 5)) if c]
-    special += infer.distinguishing_cases(rng, "wAnyTie")[: n // 5] + infer.distinguishing_cases(rng, "lexAllPairs")[: n // 10] + infer.distinguishing_cases(rng, "lexAllMcsF")[: n // 10]
+    special += infer.distinguishing_cases(rng, "wAnyTie")[: n // 5] + infer.distinguishing_cases(rng, "lexAllPairs")[: n // 10] + infer.distinguishing_cases(rng, "lexAllMcsF")[: n // 10] + infer.distinguishing_cases(rng, "wMinCard")[: n // 5]
     for c in special:
         out.append({"kind": "trees", "sig": c["sig"], "base": [(x["B"], x["A"]) for x in c["base"]], "qs": [(x["B"], x["A"]) for x in c["qs"]], "via": "api"})
     for _ in range(n):
